@@ -211,7 +211,9 @@ Step(r) ==
                                      /\ cached' = Recache(cached, minF')
                                      /\ LET asked == {m.start : m \in {x \in ToSet(r.out.sent) : x.kind = "GetBlockFilters"}}
                                         IN IF CouldRequestMore(minF') THEN asked = {minF' + 1} ELSE asked = {}
-                                /\ minF' = minF => cached' = cached
+                                \* (a batch that brings no progress ends in try_send_get_block_filter_hashes, which lets the cached hashes
+                                \*  follow the filter position -- e.g. after set_scripts has rewound it)
+                                /\ minF' = minF => cached' \in {cached, Recache(cached, minF)}
                                 /\ ({x \in subst' \ subst : x < ForeignBase} # {} => PrintT(<<"KNOWN-FINDING", "KF-C06-blockhash", {x \in subst' \ subst : x < ForeignBase}>>))
       [] r.ev = "BlocksProof" -> BlocksProofEv(r.a)
       [] r.ev = "Block"      -> RecvBlock(r.a.p, r.a.b, r.a.body)
